@@ -33,6 +33,10 @@ type ClosureOpts struct {
 	StartDelay time.Duration
 	// Resume: first remove the rolling-update-paused / rollout-frozen annotations (a legal user action).
 	Resume bool
+	// ReverseERS: reconcile the replica sets in descending instead of ascending name order within a round (the fair
+	// driver is one fair order; where in-memory state is shared between replica-set syncs - the failed-pod back-off -
+	// the other order is run as well)
+	ReverseERS bool
 	// SkipJumps: do not perform the +3/+6/+11 min persistence jumps.
 	SkipJumps bool
 	// KeepRounds: keep running this many extra rounds after the fixpoint (default 0).
@@ -145,6 +149,11 @@ func (l *Live) round(s *State, sc *Scenario, o *ClosureOpts, trace *[]string) (i
 	}
 	erss := &v1.ExtendedDaemonSetReplicaSetList{}
 	must(in.List(ctx, erss))
+	if o.ReverseERS {
+		for i, j := 0, len(erss.Items)-1; i < j; i, j = i+1, j-1 {
+			erss.Items[i], erss.Items[j] = erss.Items[j], erss.Items[i]
+		}
+	}
 	for _, e := range erss.Items {
 		l.API.ResetLog()
 		rr := l.ReconcileERS(e.Namespace, e.Name)
